@@ -41,6 +41,12 @@ Theorem C01_search_range_units : forall entry, (0 <= entry <= 3)%Z -> max_shift_
 Proof. intros entry H. assert (entry = 0 \/ entry = 1 \/ entry = 2 \/ entry = 3)%Z as [->|[->|[->| ->]]] by (destruct H; clear - H H0; Lia.lia); reflexivity. Qed.
 Print Assumptions C01_search_range_units.
 
+(** the same through a loader group: every group is searched over the range in nanometres divided by that group's scale exactly once
+    (the range itself is bound once, outside the loop over the groups) *)
+Theorem C01_group_search_range_units : forall entry, (0 <= entry <= 2)%Z -> group_max_shift_divisions entry = 1%Z.
+Proof. intros entry H. assert (entry = 0 \/ entry = 1 \/ entry = 2)%Z as [->|[->| ->]] by (destruct H; clear - H H0; Lia.lia); reflexivity. Qed.
+Print Assumptions C01_group_search_range_units.
+
 Print Assumptions C01_pose_update.
 Print Assumptions C01_pose_update_explicit.
 Print Assumptions C01_recovers_truth.
